@@ -476,3 +476,22 @@ def walk(v):
             for c, _ in p.conds:
                 for x in walk(c):
                     yield x
+
+
+def subst_value(v, mapping):
+    """replace symbols (keys of `mapping`) inside a value term"""
+    if isinstance(v, Sym):
+        return mapping.get(v, v)
+    if isinstance(v, App):
+        return App(v.op, *[subst_value(x, mapping) if isinstance(x, V) else x
+                           for x in v.args])
+    if isinstance(v, Tup):
+        return Tup([subst_value(x, mapping) for x in v.items])
+    if isinstance(v, Coll):
+        return Coll(v.oid, v.kind, [Part(
+            q.kind, subst_value(q.val, mapping),
+            key=None if q.key is None else subst_value(q.key, mapping),
+            gens=[(g, subst_value(it, mapping)) for (g, it) in q.gens],
+            conds=[(subst_value(c, mapping), pol) for (c, pol) in q.conds])
+            for q in v.parts], v.havoc)
+    return v
